@@ -471,7 +471,13 @@ def t1f_no_step_without_open(ctx):
     for b in prog.prod_bodies():
         if (b.impl_self_def or "") not in auths or b.root != b.defp:
             continue
-        steps = [(blk, c, t) for (blk, c, t) in b.calls() if (c.self_def or "") in gens and c.method not in ("new", "default", "init")]
+        def _is_step(c):
+            """a step of the generator takes the generator by `&mut self`; its constructors (whatever they are called) take no receiver"""
+            cb = prog.body(c.target)
+            if cb is None:
+                return c.method not in ("new", "default", "init")
+            return cb.argc >= 1 and cb.local_ty(1).lstrip().startswith("&mut")
+        steps = [(blk, c, t) for (blk, c, t) in b.calls() if (c.self_def or "") in gens and _is_step(c)]
         prims = [(blk, c, t) for (blk, c, t) in b.calls() if is_prim(c)]
         for (blk, c, t) in steps:
             n += 1
